@@ -952,12 +952,14 @@ func (s *State) evalForInteger(fe *ast.ForExpression, start *int64, end int64, n
 			case token.CONTINUE:
 				continue
 			case token.RETURN:
+				r.Value = object.CopyRegister(r.Value) // our register is released when we return.
 				return r
 			default:
 				return s.Errorf("for loop unexpected control type %s", r.ControlType.String())
 			}
 		default:
-			lastEval = nextEval
+			// Copy: the loop variable's register is released (and reused) once the loop is done.
+			lastEval = object.CopyRegister(nextEval)
 		}
 	}
 	return lastEval
